@@ -165,6 +165,7 @@ def add_targets(E, spec, pid):
                   "ssl_context": VLazyOpt(z3.Bool("ssl_context_given"), lambda c: VOpaque("sslctx", z3.Int("sslctx_id")), "ssl_context"),
                   "verify_ssl": VBool(z3.Bool("verify_ssl")), "trust_on_first_use": VBool(z3.Bool("tofu_enabled")),
                   "tofu_db_path": VLazyOpt(z3.Bool("tofu_db_path_given"), lambda c: VOpaque("path", z3.Int("db_path_arg")), "tofu_db_path"),
+                  "decode_body": VBool(z3.Bool("client.decode_body")),
                   "client_cert": NONE, "client_key": NONE}      # they only select arguments of create_client_context (C20)
         E.sqlite_db_of(ctx)
         try:
@@ -189,7 +190,11 @@ def add_targets(E, spec, pid):
         had, old_fp = c0.present(host, port), c0.get("fp", host, port)
         pins_same = z3.And(c1.has == c0.has, c1.fp == c0.fp)
         others_same = c1.same_except(c0, host, port, cols=("fp",), tag="s")
-        P = {"C16": [z3.BoolVal(len(conns) <= 1)], "C13": [], "C03": [], "C11": []}
+        P = {"C16": [z3.BoolVal(len(conns) <= 1)], "C13": [], "C03": [], "C11": [], "C18": []}
+        pr = ctx.ghost.get("cproto")
+        if pr is not None and pr.cls == GP:
+            db = ctx.force(ctx.getf(pr, "decode_body")) if ctx.getf(pr, "decode_body") is not None else None
+            P["C18"].append(db.z == z3.Bool("client.decode_body") if isinstance(db, VBool) else z3.BoolVal(False))
         if conns:
             ch, cp = conns[0][0], conns[0][1]
             P["C16"].append(z3.And(ch.z == host, cp.z == port))
@@ -220,12 +225,13 @@ def add_targets(E, spec, pid):
         "C11": "[C11] bytes on the wire imply a verified certificate; nothing was sent when CertificateChangedError is raised",
         "C13": "[C13] the transport is closed on every exit after the connection was made; a returned value is the response the protocol resolved",
         "C16": "[C16] at most one connection, to the host and port parse_url reports for the URL",
+        "C18": "[C18] the protocol object of a fetch decodes bodies exactly when the client was created with decode_body=True",
     }
 
     def clause_posts(hostf, portf):
         def mkpost(tag):
             return lambda ctx, old, args, outcome: common_post(ctx, old, args, outcome, hostf(), portf())[tag]
-        return [(CLAUSES[t], mkpost(t)) for t in ("C03", "C11", "C13", "C16")]
+        return [(CLAUSES[t], mkpost(t)) for t in ("C03", "C11", "C13", "C16", "C18")]
 
     # ---- _get_single ----------------------------------------------------------------------------------------
     def gs_args(ctx):
@@ -256,7 +262,7 @@ def add_targets(E, spec, pid):
     spec.event_contracts[f"{CL}._get_single"] = c_gs
     spec.event_contracts[f"{CL}.upload"] = c_up
     spec.targets += [(f"{CL}._get_single", None), (f"{CL}.upload", None)]
-    tags = {"C03": ("[C03]", "[C03,"), "C11": ("[C11]", "requires/C11", "[C11,"), "C13": ("[C13]", "[C13,", "[INV,C13]")}.get(pid)
+    tags = {"C03": ("[C03]", "[C03,"), "C11": ("[C11]", "requires/C11", "[C11,"), "C13": ("[C13]", "[C13,", "[INV,C13]"), "C18": ("[C18]",)}.get(pid)
     if tags:
         prev = getattr(spec, "keep", None)
         sess = (f"{CL}._get_single/", f"{CL}.upload/")
